@@ -102,7 +102,7 @@ class Ctx:
         self.proof = {"obligations": 0, "discharged": 0, "broken": [], "print_assumptions": {}}
         self.notes = []
         self.known = load_known(pid)
-        self.workdir = WORK / pid
+        self.workdir = WORK / f"{pid}-{tier}-{seed}"   # one directory per (property, tier, seed): concurrent runs of different tiers or seeds do not share case files
         self.level = "proof"
         self.extra = {}
 
